@@ -32,12 +32,13 @@ def _check_structural_constraint(must_link, cannot_link):
         for node in reacheable_nodes:
             samples_to_explore.remove(node)
 
-        for i, j in itertools.combinations(reacheable_nodes, r=2):
+        # The nodes of the graph are positions in unique_indices: translate them back to sample indices
+        component = set(unique_indices[node] for node in reacheable_nodes)
 
-            for pair in cannot_link:
-                pair_i, pair_j = pair
-                if (i == pair_i and j == pair_j) or (i == pair_j and j == pair_i):
-                    raise ValueError("Triangular contradiction in Must-link / Cannot-link constraints")
+        for pair in cannot_link:
+            pair_i, pair_j = pair
+            if pair_i in component and pair_j in component:
+                raise ValueError("Triangular contradiction in Must-link / Cannot-link constraints")
 
 
 def _check_linking_constraint(must_link=None, cannot_link=None):
